@@ -224,6 +224,28 @@ def history_prelude(t, nodes, rng, typed):
     kw = {"kind": "kx"} if typed else {}
     live = [n for n in nodes]
     warm_queries(t, typed)
+    if live and rng.random() < 0.5:
+        # a remove(keep_children=True) that has to be refused at the *second* child it would lift (the first one is fine, the
+        # second one meets a sibling of the removed node with the same data): the refusal may not leave anything half-done.
+        # The temporary nodes go away again afterwards.
+        try:
+            cands = [n for n in live if len(n.children) >= 2]
+            rng.shuffle(cands)
+            for n in cands[:3]:
+                holder = n.parent if n.parent is not None else t
+                second = list(n.children)[1]
+                if any(c.data_id == second.data_id for c in holder.children):
+                    continue
+                twin = holder.add(second.data, data_id=second.data_id, **({"kind": second.kind} if typed else {}))  # a clone of n's 2nd child next to n
+                try:
+                    n.remove(keep_children=True)  # fine for the first child, refused at the second
+                except Exception:
+                    pass
+                if twin._tree is not None:
+                    twin.remove()
+                break
+        except Exception:
+            pass
     for _ in range(4):
         if not live:
             break
